@@ -41,6 +41,8 @@ CARRIERS = [
     ' empty {} @media print { d { top: 00.5em } /*m*/ e {} } @x y { z } @page :first { margin: 0.5in; @top-left { w: 1 } }'
     ' @font-face { font-family: f; src: url(s) }',
     'a{b:c}',
+    # comments inside compound selectors, next to combinators, in preludes and values
+    '@import /*8*/ "x" /*9*/ tv; a/*1*/.b/*2*/:hover > c, d/*3*/[x] /*s*/ e{color:red/*4*/;/*5*/left:0} @media /*6*/ tv /*7*/{f/*i*/#g{h:i}}',
     '/*only*/',
     'a{} b{/*c*/} @media tv{}',
     '@namespace "d"; @namespace p "u"; a{x:1} p|b{y:2}',
@@ -155,6 +157,12 @@ def expected(proj_rules, prefs, variables, used_uris):
     def has_content(items):
         return any(it[0] == 'prop' for it in items) or any(it[0] == 'comment' for it in items)
 
+    def text(t):
+        """selector / media text: without its comments when they are not kept"""
+        if prefs['keepComments'] or not isinstance(t, str):
+            return t
+        return re.sub(r'\s+', ' ', re.sub(r'/\*.*?\*/', '', t, flags=re.S)).strip()
+
     def rules(rs, top):
         out = []
         for r in rs:
@@ -174,11 +182,11 @@ def expected(proj_rules, prefs, variables, used_uris):
             elif k == 'style':
                 st = style(r[2])
                 if has_content(st) or prefs['keepEmptyRules']:
-                    out.append(('style', r[1], st))
+                    out.append(('style', [text(x) for x in r[1]], st))
             elif k == 'mediarule':
                 inner = rules(r[2], False)
                 if inner or prefs['keepEmptyRules']:
-                    out.append(('mediarule', r[1], inner))
+                    out.append(('mediarule', text(r[1]), inner))
             elif k == 'page':
                 st = style(r[2])
                 inner = [('margin', m[1], style(m[2])) for m in r[3]]
@@ -189,6 +197,8 @@ def expected(proj_rules, prefs, variables, used_uris):
                 st = style(r[1])
                 if has_content(st) or prefs['keepEmptyRules']:
                     out.append(('fontface', st))
+            elif k == 'import':
+                out.append(('import', r[1], text(r[2]), r[3]))
             else:
                 out.append(r)
         return out
@@ -412,7 +422,7 @@ SPLIT_PREFS6 = SPLIT_PREFS + ['keepUnknownAtRules', 'defaultPropertyName']
 
 def jobs(tier):
     out = []
-    n = 5 if tier == 'quick' else len(CARRIERS)
+    n = 6 if tier == 'quick' else len(CARRIERS)
     for i in range(n):
         big = len(CARRIERS[i]) > 60
         if big:
@@ -437,7 +447,7 @@ def main(tier):
     rep.handle_counterexamples(cases)
     rep.bounds = {'carriers': '%d carrier sheets (harness/c06.py CARRIERS); the kitchen-sink carrier is explored over all '
                               'assignments with at most two non-default preferences%s' % (
-                                  5 if tier == 'quick' else len(CARRIERS), '' if tier == 'quick' else ' and, split 16 ways, over all assignments'),
+                                  6 if tier == 'quick' else len(CARRIERS), '' if tier == 'quick' else ' and, split 16 ways, over all assignments'),
                   'preferences': '%d boolean preferences as solver variables (2^%d assignments), %d string preferences '
                                  'over menus %s; plus the minified preset' % (
                                      len(BOOL_PREFS), len(BOOL_PREFS), len(STR_PREFS),
